@@ -340,6 +340,7 @@ def check_C05(ctx):
     covered += info["edges_covered"]
     ctx.distinct = covered
     free_component(ctx)
+    code_family(ctx, "twins", parts=3, what="twin round on a reused decoder")
 
 
 def check_C11(ctx):
@@ -355,7 +356,7 @@ def check_C11(ctx):
     ctx.distinct = info["edges_covered"]
     ctx.exhaustive = True
     replay_samples(ctx, gp, 2)
-    code_family(ctx, "c11")
+    code_family(ctx, "c11,twins", what="decode round (orders, surplus, twin rounds on a reused decoder)")
     # several rounds on one decoder: orders and surplus must not leak from one round into the next
     replay(ctx, gp, "walks", walks=240 if not ctx.thorough else 2400, length=60)
     free_component(ctx, roles=("dec",), runs=None if ctx.thorough else 120)
@@ -471,7 +472,7 @@ def check_C10(ctx):
 
 def code_family(ctx, fam, parts=None, what="recorded round"):
     """Runs a family of the `code` driver and validates its trace with Trace_Code (closed form over GF(2^16))."""
-    trace = ctx.path("trace_%s.ndjson" % fam)
+    trace = ctx.path("trace_%s.ndjson" % fam.replace(",", "_"))
     rc, info, out = harness(["code", "--family", fam, "--out", trace, "--seed", ctx.seed, "--tier", ctx.tier])
     ctx.evaluations += info["events"]
     ctx.extra.setdefault("harness_stats", {}).update(info.get("stats", {}))
@@ -505,7 +506,7 @@ def check_C01(ctx):
     if ctx.replay:
         return validate_star(ctx, "Trace_Code", "Trace_Code.cfg", ctx.replay, parts=1)
     algo_models(ctx, "dec")
-    code_family(ctx, "c01", what="decode round")
+    code_family(ctx, "c01,twins", what="decode round")
     history_component(ctx)
 
 
